@@ -84,6 +84,31 @@ theorem creditBlock_created {c : Ctx} {s : Store} {chain : List Block} (hI : Inv
         have h3 : u.blk = blk := by rw [← h, hk]; rfl
         exact created u hc h1 h2 h3
 
+theorem txAtLoc_mem {len : Tx → Nat} {node : Node} {h : Nat} {loc : BlkId × Nat} {t : Tx}
+    (ht : node.txAtLoc len h loc = some t) : ∃ b ∈ node.chain, t ∈ b.txs := by
+  unfold Node.txAtLoc Node.blockAt at ht
+  cases hb : node.chain[h]? with
+  | none => rw [hb] at ht; cases ht
+  | some b =>
+    rw [hb] at ht
+    simp only at ht
+    refine ⟨b, List.mem_of_getElem? hb, ?_⟩
+    split at ht
+    · exact List.mem_of_getElem? ht
+    · split at ht
+      · cases ht
+      · split at ht
+        · cases ht
+        · obtain ⟨k, -, hk⟩ := List.exists_of_findSome?_eq_some ht
+          split at hk
+          · rename_i t' hg
+            split at hk
+            · simp only [Option.some.injEq] at hk
+              subst hk
+              exact List.mem_of_getElem? hg
+            · cases hk
+          · cases hk
+
 theorem txByLoc_mem {node : Node} {h : Nat} {loc : BlkId × Nat} {t : Tx} (ht : node.txByLoc h loc = some t) :
     ∃ b ∈ node.chain, t ∈ b.txs := by
   unfold Node.txByLoc Node.blockAt at ht
@@ -99,8 +124,8 @@ theorem txByLoc_mem {node : Node} {h : Nat} {loc : BlkId × Nat} {t : Tx} (ht : 
 /-- LEDGER INVARIANT ⇒ the output exists: a successful ExistsTx returns a transaction that has the requested
     output (and the block meta of the credit) -/
 theorem existsTx_index {c : Ctx} {s : Store} {chain : List Block} (hI : Inv c s chain)
-    (hV : ChainValid c.own chain) (hid : TxIdsAgree chain c.node) {cur : Wid} {tx : TxId} {idx : Nat}
-    {t : Tx} {blk : BlockMeta} (h : existsTx s c.node cur tx idx = some (t, blk)) :
+    (hV : ChainValid c.own chain) (hid : TxIdsAgree chain c.node) {len : Tx → Nat} {cur : Wid} {tx : TxId} {idx : Nat}
+    {t : Tx} {blk : BlockMeta} (h : existsTx len s c.node cur tx idx = some (t, blk)) :
     idx < t.outs.length ∧ t.id = tx := by
   unfold existsTx at h
   cases hb : creditBlock s cur tx idx with
@@ -113,7 +138,7 @@ theorem existsTx_index {c : Ctx} {s : Store} {chain : List Block} (hI : Inv c s 
     | some loc =>
       rw [hr] at h
       simp only at h
-      cases hf : c.node.txByLoc b.height loc with
+      cases hf : c.node.txAtLoc len b.height loc with
       | none => rw [hf] at h; cases h
       | some t' =>
         rw [hf] at h
@@ -123,7 +148,7 @@ theorem existsTx_index {c : Ctx} {s : Store} {chain : List Block} (hI : Inv c s 
           simp only [Option.some.injEq, Prod.mk.injEq] at h
           obtain ⟨rfl, rfl⟩ := h
           obtain ⟨oc, hoc, hoid, hlt, -⟩ := creditBlock_created hI hV hb
-          obtain ⟨bl, hbl, htb⟩ := txByLoc_mem hf
+          obtain ⟨bl, hbl, htb⟩ := txAtLoc_mem hf
           have : t' = oc.t := hid oc hoc bl hbl t' htb (hidt.trans hoid.symm)
           subst this
           exact ⟨hlt, hidt⟩
@@ -133,9 +158,9 @@ theorem existsTx_index {c : Ctx} {s : Store} {chain : List Block} (hI : Inv c s 
     ledger invariant for some valid chain, for the outpoint index the skeleton holds in `vout`; and
     `w.txStore.ExistUnminedTx` by the pending table of some store -/
 structure LedgerBacked (O : Oracle) : Prop where
-  existsTx : ∀ σ, ∃ (c : Ctx) (s : Store) (chain : List Block) (cur : Wid) (tx : TxId),
+  existsTx : ∀ σ, ∃ (c : Ctx) (s : Store) (chain : List Block) (cur : Wid) (tx : TxId) (len : Tx → Nat),
     Inv c s chain ∧ ChainValid c.own chain ∧ TxIdsAgree chain c.node ∧
-    O "w.txStore.ExistsTx" σ = existsTxAnswer E.notFound (MW.Model.ApiLedger.existsTx s c.node cur tx (σ (V "vout")))
+    O "w.txStore.ExistsTx" σ = existsTxAnswer E.notFound (MW.Model.ApiLedger.existsTx len s c.node cur tx (σ (V "vout")))
   unmined : ∀ σ, ∃ (s : Store) (tx : TxId), O "w.txStore.ExistUnminedTx" σ = existUnminedAnswer E.notFound (AMap.get s.pending tx)
 
 def existUnminedNode : CallNode :=
@@ -159,7 +184,7 @@ def existsTxNode : CallNode :=
 /-- CONTRACT (ledger): the five clauses of `w.txStore.ExistsTx` hold for a ledger-backed oracle -/
 theorem contract_ledger_ExistsTx {O : Oracle} (h : LedgerBacked O) : Holds O existsTxNode := by
   intro σ
-  obtain ⟨c, s, chain, cur, tx, hI, hV, hid, hO⟩ := h.existsTx σ
+  obtain ⟨c, s, chain, cur, tx, len, hI, hV, hid, hO⟩ := h.existsTx σ
   have hnd : ([V "prevTx", V "block", V "perr", V "perr.notfound", V "prevTx.TxOut"] : List Var).Nodup := by decide
   have g := setMany_get _ σ (O "w.txStore.ExistsTx" σ) hnd
   have g0 := g 0 (by decide)
@@ -172,7 +197,7 @@ theorem contract_ledger_ExistsTx {O : Oracle} (h : LedgerBacked O) : Holds O exi
   rw [hO] at g0 g1 g2 g4 gv
   simp only [HoldsAt, existsTxNode, onOk, List.map_cons, List.map_nil, List.cons_append, List.nil_append,
     List.all_cons, List.all_nil, Bool.and_true, Clause.eval, Atom.eval, hO, g0, g1, g2, g4, gv]
-  cases hr : existsTx s c.node cur tx (σ (V "vout")) with
+  cases hr : existsTx len s c.node cur tx (σ (V "vout")) with
   | none => simp [existsTxAnswer, E.notFound]
   | some r =>
     obtain ⟨t, blk⟩ := r
